@@ -153,11 +153,11 @@ def run():
                         ([0.0, 1.0, 1.0, 0.0], [False, True, False, False])):
             def sym_ma(a, mask=mask):
                 mm = A.ma_make(a != 0, sa(np.array(mask, dtype=object)))
-                return [A.ma_sum(mm), A.ma_sum(mm & (mm == 0)), A.ma_sum(mm == 0), A.ma_mean(mm)]
+                return [A.ma_sum(mm), A.ma_sum(mm & (mm == 0)), A.ma_sum(mm == 0), A.ma_mean(mm), np.nanmean(mm)]
 
             def real_ma(a, mask=mask):
                 mm = np.ma.masked_array(np.asarray(a) != 0, mask=mask)
-                vals = [np.ma.sum(mm), np.ma.sum(mm & (mm == 0)), np.ma.sum(mm == 0), np.mean(mm)]
+                vals = [np.ma.sum(mm), np.ma.sum(mm & (mm == 0)), np.ma.sum(mm == 0), np.mean(mm), np.nanmean(mm)]
                 return [NAN if x is np.ma.masked else float(x) for x in vals]
             cmp("masked", sym_ma, real_ma, v)
     finally:
